@@ -23,6 +23,17 @@ def conv_out(h, k, s, p):
     return (h + 2 * p - k) // s + 1
 
 
+class Cast(nn.Module):
+    """x.to(dtype): lets one part of a model run in another floating-point type (mixed-dtype models)."""
+
+    def __init__(self, dtype):
+        super().__init__()
+        self.dtype = dtype
+
+    def forward(self, x):
+        return x.to(self.dtype)
+
+
 class Scale(nn.Module):
     """Parameter-free elementwise scaling (keeps activations O(1))."""
 
@@ -104,10 +115,17 @@ def build_model(spec, dtype=torch.float32):
             m = Affine(L['n'], L.get('dim', -1))
         elif t == 'scale':
             m = Scale(L['f'])
+        elif t == 'cast':
+            m = Cast(DTYPES[L['dtype']])
         else:
             raise ValueError(t)
         mods.append(m)
-    model = nn.Sequential(*mods)
+    nest = spec.get('nest_from')
+    if nest is not None and 0 < nest < len(mods):
+        # the tail of the chain inside an inner Sequential: module names '0', ..., then 'i.0', 'i.1', ... ('0' is a dotted suffix of 'i.0')
+        model = nn.Sequential(*mods[:nest], nn.Sequential(*mods[nest:]))
+    else:
+        model = nn.Sequential(*mods)
     gen = torch.Generator().manual_seed(int(spec.get('seed', 0)) * 7919 + 13)
     with torch.no_grad():
         for name, p in model.named_parameters():
@@ -121,6 +139,9 @@ def build_model(spec, dtype=torch.float32):
             else:
                 p.copy_(0.3 * torch.randn(p.shape, generator=gen))
     model = model.to(dtype)
+    for i, L in enumerate(spec['layers']):
+        if L.get('dtype') and L['t'] != 'cast':      # this layer alone lives in another dtype (a 'cast' layer precedes it)
+            mods[i].to(DTYPES[L['dtype']])
     for i, L in enumerate(spec['layers']):
         if L.get('tie_to') is not None:            # weight tying: this layer uses the very Parameter of an earlier layer of the same shape
             mods[i].weight = mods[L['tie_to']].weight
